@@ -84,6 +84,8 @@ def fixed_by(m):
         return 'f91ec7a'
     if k == 'query-overwrites-user-variable' and m.get('variables') in (['elemental_data:volume'], ['elemental_data:area']):
         return 'a8d6190'
+    if k == 'query-overwrites-user-variable':
+        return '5fc3edd'
     if k in ('stale-lru', 'stale-derive') and e in ('remove_useless_nodes', 'rotation', 'translation'):
         return '1693b7f'
     if k == 'modifier-differs' and e in ('rotation', 'translation'):
